@@ -10,6 +10,8 @@ void harness::run_case(const eng::Raw& raw, eng::Ctx& ctx)
 	lim.maxStates = ctx.tier() ? 8 : 6;
 	lim.arity3 = true;
 	gen::TACase c = gen::decode_ta(raw, lim, false);
+	const std::string largeTag = gen::enlarge(c, false);
+	if (!largeTag.empty()) ctx.tag(largeTag);
 	const uint32_t flavour = c.header[0] % 5;
 	int n = c.n;
 	if (flavour == 1 || flavour == 2) {
@@ -45,7 +47,7 @@ void harness::run_case(const eng::Raw& raw, eng::Ctx& ctx)
 	c.num = gen::make_numbering(c.header[3], c.n, false);
 	c.order = gen::shuffled(c.A.rules, c.header[4]);
 	ctx.describe("flavour " + std::to_string(flavour) + "\n" + gen::describe_ta(c));
-	ctx.small_case(true);
+	ctx.small_case(largeTag.empty());
 
 	const ref::TA V = tc::lib_view(c.A, c.num);
 	// depth of the shallowest accepted tree
